@@ -14,7 +14,28 @@ import (
 // calls are gated (block / fail / late result), which may run the library's real timer, and which receives
 // API stress: UpdateState bursts (older / equal / newer), malformed input, cancellation at an arbitrary step.
 
+// cancelPoints: how many cancellation points are enumerated per generated base run (C16)
+func cancelPoints(tier string) int {
+	if tier == "thorough" {
+		return 200
+	}
+	return 40
+}
+
 func genRTConfig(ch *Chooser, prop, tier string, disabled map[string]bool) *RunConfig {
+	cancelAt := 0
+	if prop == "C16" {
+		// fault enumeration: the run index was split by the driver into (base run, cancellation point); all runs of
+		// one base draw the same configuration and the same schedule, and differ only in where cancellation strikes
+		base := ch.Pick("c16-base", 1<<30)
+		k := ch.Pick("c16-cancel-point", cancelPoints(tier))
+		ch.Reseed(uint64(base))
+		if tier == "thorough" {
+			cancelAt = 1 + k
+		} else {
+			cancelAt = 1 + 5*k
+		}
+	}
 	cfg := genNetConfig(ch, prop, tier, disabled)
 	cfg.Shape = "RT"
 	// the focus node is a correct member
@@ -46,7 +67,7 @@ func genRTConfig(ch *Chooser, prop, tier string, disabled map[string]bool) *RunC
 	cfg.NoisePm = []int{0, 0, 30, 100}[ch.Pick("r-noise", 4)]
 	cfg.CrashPm = 0 // the focus node is never crashed by the generic fault; cancellation is an explicit action
 	if prop == "C16" {
-		cfg.CancelAt = 1 + ch.Pick("cancel-at", 200)
+		cfg.CancelAt = cancelAt
 	} else if ch.Pick("cancel?", 6) == 5 {
 		cfg.CancelAt = 1 + ch.Pick("cancel-at", cfg.MaxSteps/2)
 	}
